@@ -122,7 +122,7 @@ def space_sensor(sid: int, pos, vel, kind="optical", name=None, fov=None, **over
     cfg["platform"] = {"type": "spacecraft"}
     cfg["state"] = {"type": "eci", "position": [float(x) for x in pos], "velocity": [float(x) for x in vel]}
     cfg["sensor"]["azimuth_range"] = [0.0, 359.9999]
-    cfg["sensor"]["elevation_range"] = [-90.0, 90.0]
+    cfg["sensor"]["elevation_range"] = [-89.999, 89.999]
     return cfg
 
 
@@ -157,6 +157,7 @@ def config(
     geopotential=None,
     perturbations=None,
     estimation=None,
+    filter_params=None,
     observation=None,
     propagation=None,
     stop: datetime | None = None,
@@ -173,9 +174,11 @@ def config(
     est = estimation or {
         "sequential_filter": {
             "name": "unscented_kalman_filter",
-            "parameters": {"alpha": 0.05, "beta": 2.0},
+            "alpha": 0.05,
+            "beta": 2.0,
             "dynamics_model": filter_model or model,
             "maneuver_detection": None,
+            **(filter_params or {}),
         },
         "adaptive_filter": None,
     }
